@@ -12,7 +12,7 @@
    checked by the harness under the race detector. *)
 From Juniper Require Import Common.Base Tree.Bound Tree.BTree Tree.Cursor Tree.SMap Tree.AIter Tree.Hist
   Tree.ProofsSMap Tree.ProofsSpecLaws Tree.ProofsWf Tree.ProofsRefine Tree.ProofsHist
-  Tree.ProofsPutPresent.
+  Tree.ProofsPutPresent Tree.ProofsRange.
 
 (* ---- the comparison laws, and the orders they cover ---- *)
 
@@ -201,3 +201,79 @@ Theorem C01_refinement_no_range : forall minKVs maxKVs : nat,
 Proof. exact refinement_no_range. Qed.
 
 Print Assumptions C01_refinement_no_range.
+
+(* Range(lo, hi) / RangeReverse(lo, hi) created on a well-formed tree and drained at once (any mix
+   of Included / Excluded / Unbounded bounds) never panic and yield exactly the ideal range *)
+Theorem C01_range_drained : forall minKVs maxKVs : nat,
+    (1 <= minKVs)%nat -> (2 * minKVs <= maxKVs)%nat ->
+    forall mode (t : btree Z Z) lo hi,
+      wf (mode_cmp mode) minKVs maxKVs t ->
+      match range Z Z (mode_cmp mode) 0 t lo hi with
+      | Panic _ => OPanic
+      | Ok it => drain_M (mode_cmp mode) (drain_fuel t) t it
+      end = OList (sm_range Z Z (mode_cmp mode) lo hi (inorder (root t))).
+Proof. exact range_drain. Qed.
+
+Theorem C01_range_rev_drained : forall minKVs maxKVs : nat,
+    (1 <= minKVs)%nat -> (2 * minKVs <= maxKVs)%nat ->
+    forall mode (t : btree Z Z) lo hi,
+      wf (mode_cmp mode) minKVs maxKVs t ->
+      match range_rev Z Z (mode_cmp mode) 0 t lo hi with
+      | Panic _ => OPanic
+      | Ok it => drain_M (mode_cmp mode) (drain_fuel t) t it
+      end = OList (sm_range_rev Z Z (mode_cmp mode) lo hi (inorder (root t))).
+Proof. exact range_rev_drain. Qed.
+
+(* every history without live iterators (TIterNew / TIterNext: see C02) and without the probes
+   TGetCost / TShape (not calls of the API; layer S answers them with OUnit):
+   Put, Delete, Get, Contains, Len, First, Last, Range, RangeReverse in any mix *)
+Theorem C01_refinement : forall minKVs maxKVs : nat,
+    (1 <= minKVs)%nat -> (2 * minKVs <= maxKVs)%nat ->
+    forall mode ops, forallb seq_op ops = true ->
+      run_M minKVs maxKVs mode ops = run_S mode ops.
+Proof. exact refinement. Qed.
+
+Print Assumptions C01_range_drained.
+Print Assumptions C01_range_rev_drained.
+Print Assumptions C01_refinement.
+
+(* ---- the shipped constants ---- *)
+From Juniper Require Import Generated.Params Tree.Corr.
+
+Theorem C01_params_ok : (1 <= minK)%nat /\ (2 * minK <= maxK)%nat.
+Proof. unfold minK, maxK, tree_minKVs, tree_maxKVs. lia. Qed.
+
+Theorem C01_refinement_shipped : forall mode ops,
+    forallb seq_op ops = true -> run_M_shipped mode ops = run_S mode ops.
+Proof. exact (C01_refinement minK maxK (proj1 C01_params_ok) (proj2 C01_params_ok)). Qed.
+
+(* non-vacuity: the histories of Corr.v (split of the root, steal, merge back, root collapse, ranges
+   with all kinds of bounds, coarse orders) are covered by the theorem and run on both layers *)
+Example C01_history_runs :
+  forallb seq_op (no_probe h_merge) = true /\
+  forallb seq_op (no_probe h_split) = true /\
+  run_S 0 (no_probe h_merge) =
+    repeat OUnit 16 ++
+    [OUnit; OUnit;
+     OList (map (fun n => (Z.of_nat n, Z.of_nat n * 10)) (seq 0 14));
+     OList [(8, 80); (7, 70); (6, 60); (5, 50); (4, 40); (3, 30)];
+     OList []; OInt 14] /\
+  run_M_shipped 2 [TPut 5 1; TPut 6 2; TGet 4; TRange (BInc 3) (BExc 8); TRangeRev BUnb (BInc 7)] =
+    [OUnit; OUnit; OInt 2; OList [(5, 2)]; OList [(5, 2)]].
+Proof. vm_compute. repeat split; reflexivity. Qed.
+
+(* non-vacuity of the present-key theorems: in a three-node tree of 20 keys, Puts to the present keys
+   3 (left leaf) and 17 (right leaf) change no identity / key / shape and commute *)
+Example C01_puts_commute_runs :
+  let t := m_t (fst (steps_M minK maxK 0 m0 (puts (seq 0 20)))) in
+  let put := put Z Z Z.compare 0 0 maxK in
+  contains Z Z Z.compare t 3 = true /\ contains Z Z Z.compare t 17 = true /\
+  skel (root (put t 3 333)) = skel (root t) /\
+  get Z Z Z.compare 0 0 (put t 3 333) 3 = 333 /\
+  put (put t 3 333) 17 1717 = put (put t 17 1717) 3 333 /\
+  put t 3 333 <> t.
+Proof. vm_compute. repeat split; try reflexivity. discriminate. Qed.
+
+Print Assumptions C01_params_ok.
+Print Assumptions C01_refinement_shipped.
+
